@@ -11,6 +11,7 @@ import (
 	"os"
 	"strings"
 
+	"verif/harness/internal/crashpt"
 	"verif/harness/internal/reng"
 )
 
@@ -26,6 +27,12 @@ func main() {
 		os.Exit(runCheck(os.Args[2], os.Args[3], os.Args[4:]))
 	case "worker":
 		os.Exit(runWorker(os.Args[2:]))
+	case "dbgtrace":
+		crashpt.Debug(os.Args[2])
+	case "victim":
+		os.Exit(crashpt.RunVictim(os.Args[2], os.Args[3]))
+	case "crashcheck":
+		os.Exit(crashpt.RunCrashCheck(os.Args[2], os.Args[3], os.Args[4]))
 	default:
 		usage()
 	}
